@@ -24,7 +24,11 @@ anchored on. In a **third round** twenty more sub-agents wrote two refactorings 
 had not asked for: an *API / data-flow* clean-up (a private struct or enum introduced for what was passed as several parameters, a free
 function turned into a method, a changed private signature, one function split into named steps, a `const` hoisted) and a *control-flow*
 normalisation (guard clauses, inverted conditions, De Morgan, a match on a tuple, `find` / `any` / `fold` / `try_fold` for loops, slice
-patterns, `let .. else`, explicit matches for `?`). The %d patches are kept in `probes/<id>/` and are negative controls (`R-<id>`) of the
+patterns, `let .. else`, explicit matches for `?`). In a **fourth round** twenty more sub-agents wrote two *commits a maintainer makes that
+are not refactorings of the property's logic*: `Cxx-8`, a maintenance / performance / lint-style commit (`with_capacity` / `reserve`, needless
+clones and collects removed, in-place updates, clippy-style rewrites, `write_str`, `#[must_use]`, hoisted invariants, `&[T]` for `&Vec<T>`) and
+`Cxx-9`, a small orthogonal *addition* next to the property's code (a new accessor / `Display` / `From` impl, a bounded variant of
+`apply_fixpoint`, new unit tests, a `debug_assert!`). The %d patches are kept in `probes/<id>/` and are negative controls (`R-<id>`) of the
 self-test.
 
 **First runs: 28 of the first 30 refactorings, 12 of the next 15 (C10, C11, C14, C17, C20) and 12 of the last 15 (C12, C15, C16, C18, C19) made at
@@ -120,10 +124,37 @@ the first sixty. What was removed this time (again only causes that are generic,
   `transition_axioms` as a method or an associated function of the two programs, `natural` through the public trait entry, panic sites that
   moved into a new function of the same module directory.
 
+**Fourth round, first run: 15 of the 40 commits made at least one check fail** (13 of the 20 maintenance commits and 2 of the 20 additions,
+the two `debug_assert!`s below) - additions next to the code do not disturb the rules (floors and tables count what they name, not
+what a file contains), and the maintenance commits failed on value-irrelevant spelling again. Removed:
+
+* **Allocation is no part of a value.** `Vec::with_capacity(n)` is the empty list, `reserve` / `shrink_to_fit` are no-ops, an empty list
+  extended by the elements of X is X (`ftpl.canon_iter`, C17's `_shape`); `T::clone(&x)` is `x.clone()`.
+* **In-place updates.** `for x in xs.iter_mut() { x.f = E }` (possibly enumerated) updates every element of `xs` (the evaluator used to lose
+  the write); `name.insert(0, 'f')` / `push_str` on the element are the prefix / the default name of C09's sanitiser; `retain(|k, v| keep)` is a
+  filter, in order (`comp.coll`).
+* **Membership however it is asked.** The name choosers may ask a predicate closure over the variables (`|n| variables.iter().any(|v| v.name
+  == n)`) instead of building the list of taken names; V may be walked as `globals[0..arity]` itself instead of being indexed by the position
+  of the head term (with a new obligation that `Head::arity` is the number of terms `Head::terms` hands out).
+* **Text however it is written.** `f.write_str("tok")` writes what `write!(f, "tok")` writes; an arm that is `Ok(())` prints nothing.
+* **Arithmetic on lengths cannot overflow.** `xs.len() + K`, `xs.len() + ys.len() + ..` over Vecs / slices of sized elements stay inside
+  `usize` (a length is at most `isize::MAX / size_of::<T>()`): C16 discharges those overflow assertions structurally (`PANIC-TAB:len-plus-const`)
+  instead of asking for a table entry.
+* Locals hoisted out of a closure (`let outs = ug.output_predicates();`) are followed (C11), `axioms.iter().cloned()` is a copy of `axioms`
+  like `axioms.clone()` (C13), `matches!` on a literal constructor is decided (C08), a loop element captured by a lazily evaluated closure is the
+  element (C08 / C16).
+
+Two of the additions stay flagged **by design**: `C01-9` and `C19-9` add a `debug_assert!` to reachable code. C16 reports every reachable
+panic site that no table entry discharges; it cannot decide that the asserted condition holds on every input (in `C01-9` it is the contract of the
+name chooser, in `C19-9` the number of parts of a broken equivalence), and a wrong `debug_assert!` is exactly a way to make a debug build of
+anthem panic on some input while every test passes. The report names the function and the kind of site; the remedy is one line in the discharge
+table with the invariant.
+
 After these changes **%d of the %d probes are silent on all 20 checks**; the other %d still fail at least one check although the property
 holds. They are listed below as *known fail-closed cases*: restructurings that need algebraic or inductive knowledge the extractors do not have
 (a recursion over the quantifier prefix rewritten as peel-loop + fold), option flags and portfolio tables copied into a new struct whose
-methods read them, or a whole function (`completion`) rebuilt around a new type whose `&mut self` methods do the steps.
+methods read them, a whole function (`completion`) rebuilt around a new type whose `&mut self` methods do the steps, or a new `debug_assert!`
+(a panic site C16 cannot discharge by itself, see above).
 A failing check on such an edit reports an `ANALYSIS-GAP` or a template mismatch naming the function; it is the one known way these
 checks can fail on code where the property still holds, and the reason is in the report.
 
